@@ -102,7 +102,9 @@ def strGet (bs : Bytes) (a b : Nat) : Option Bytes :=
 * `Full`: `StringSlice::<usize>::new(string, bounds)` — only converts `usize → usize`, so **nothing**
   is validated (neither the range nor the character boundaries);
 * `Slice` / `SliceLarge`: `StringSlice::with_bounds` — validated with `data.get(new_bounds)` against the
-  whole shared buffer (not against the slice's own end). -/
+  whole shared buffer (not against the slice's own end: F-C15-10, Rust API level — the VM's call sites
+  never ask beyond the end, `range_indices_in_bounds`).
+`KStr.withBoundsApi … (ownEnd := true)` below describes a tree with requests/C15-fix-8.diff applied. -/
 def KStr.withBounds (s : KStr) (a b : Nat) : Option KStr :=
   match s.form with
   | .full => some (KStr.ofSlice s.buf a b)
@@ -114,6 +116,11 @@ def KStr.withBounds (s : KStr) (a b : Nat) : Option KStr :=
   | .large =>
     if (strGet s.buf (a + s.lo) (b + s.lo)).isSome then some (KStr.ofSlice s.buf (a + s.lo) (b + s.lo))
     else none
+
+/-- the public `KString::with_bounds` as a host calls it (any `a`, `b`); `ownEnd = true`: with
+requests/C15-fix-8.diff applied a request beyond the string's own end is refused in every form -/
+def KStr.withBoundsApi (s : KStr) (a b : Nat) (ownEnd : Bool := false) : Option KStr :=
+  if ownEnd ∧ b > s.len then none else s.withBounds a b
 
 /-- `StringSlice::split(offset)` as used by `pop_front` / `pop_back`: `(popped-or-rest, rest-or-popped)`.
 Only `is_char_boundary(lo + offset)` on the buffer is checked (not `≤ hi`). -/
@@ -193,21 +200,27 @@ def tempIndex (s : KStr) (i : Int) : Res :=
 def sliceFrom (s : KStr) (i : Int) : Res := Res.ofOpt (s.withBounds (signedIndex i s.len) s.len)
 def sliceTo (s : KStr) (i : Int) : Res := Res.ofOpt (s.withBounds 0 (signedIndex i s.len))
 
+/-- With requests/C15-fix-7.diff applied (`strict = true`) a cut through a character in `TempIndex` /
+`SliceFrom` / `SliceTo` is the same runtime error as for `s[i]`; the current code yields `null` (F-C15-9). -/
+def unpackResult (strict : Bool) (xs : List Res) : Res :=
+  if strict ∧ xs.any (fun r => match r with | .null => true | _ => false) then .err "utf8" else .tuple xs
+
 /-- nested-argument unpacking `|(a₀, …, aₙ₋₁)|` applied to a string: `CheckSizeEqual` on the byte
 length, then `TempIndex 0 … n-1` -/
-def unpackExact (s : KStr) (n : Nat) : Res :=
+def unpackExact (s : KStr) (n : Nat) (strict : Bool := false) : Res :=
   if s.len ≠ n then .err "size"
-  else .tuple ((List.range n).map (fun (i : Nat) => tempIndex s (i : Int)))
+  else unpackResult strict ((List.range n).map (fun (i : Nat) => tempIndex s (i : Int)))
 
 /-- `|(a₀, …, aₖ₋₁, rest...)|`: `CheckSizeMin k`, `TempIndex 0 … k-1`, `SliceFrom k` -/
-def unpackHead (s : KStr) (k : Nat) : Res :=
+def unpackHead (s : KStr) (k : Nat) (strict : Bool := false) : Res :=
   if s.len < k then .err "size"
-  else .tuple ((List.range k).map (fun (i : Nat) => tempIndex s (i : Int)) ++ [sliceFrom s k])
+  else unpackResult strict ((List.range k).map (fun (i : Nat) => tempIndex s (i : Int)) ++ [sliceFrom s k])
 
 /-- `|(first..., z₁, …, zₖ)|`: `CheckSizeMin k`, `SliceTo -k`, `TempIndex -k … -1` -/
-def unpackTail (s : KStr) (k : Nat) : Res :=
+def unpackTail (s : KStr) (k : Nat) (strict : Bool := false) : Res :=
   if s.len < k then .err "size"
-  else .tuple (sliceTo s (-(k : Int)) :: (List.range k).map (fun (i : Nat) => tempIndex s ((i : Int) - (k : Int))))
+  else unpackResult strict
+    (sliceTo s (-(k : Int)) :: (List.range k).map (fun (i : Nat) => tempIndex s ((i : Int) - (k : Int))))
 
 /-! ## Byte-level helpers -/
 
